@@ -8,6 +8,8 @@ otherwise it takes the current core), `Coring.refOne` applies it with windows `2
 (StateTraj encoding, sentinel `-1`, last-frame shortcut, stage-wise schedule over the whole set).
 -/
 import MsmVerif.Lemmas.Coring
+import MsmVerif.Lemmas.Coring2
+import MsmVerif.Lemmas.StateTraj
 
 namespace MsmVerif.C05
 open MsmVerif MsmVerif.Coring
@@ -146,5 +148,235 @@ theorem error_iff_no_core (τ : Nat) (t : List Int) :
 /-- `tau = 1` returns the input (public API; also for the reference) -/
 theorem tau_one (ts : Trajs) (iter : Bool) : refSet ts 1 iter = .ok ts := by
   simp [refSet]
+
+/-! ## Second batch: runs, kernel = reference, stage-wise pipeline, equivariance, whole-pipeline properties -/
+
+/-- every maximal constant run is at least one frame long — holds for every trajectory -/
+theorem allRuns_one (t : List Int) : AllRunsGE 1 t := allRunsGE_one t
+
+/-- "all runs `≥ k`" gets weaker when `k` gets smaller -/
+theorem allRuns_mono {k k' : Nat} (h : k' ≤ k) (t : List Int) (ht : AllRunsGE k t) : AllRunsGE k' t :=
+  allRunsGE_mono h t ht
+
+/-- `AllRunsGE τ t` says exactly: every entry of the list of maximal-run lengths of `t` is `≥ τ` -/
+theorem allRunsGE_iff_runLengths (τ : Nat) (t : List Int) :
+    AllRunsGE τ t ↔ ∀ n ∈ runLengths t, τ ≤ n := allRunsGE_iff_runLengths' τ t
+
+example : AllRunsGE 2 [1, 1, 3, 3, 3] := (allRunsGE_iff_runLengths 2 _).mpr (by decide)
+example : ¬ AllRunsGE 3 [1, 1, 3, 3, 3] := fun h => absurd ((allRunsGE_iff_runLengths 3 _).mp h) (by decide)
+example : runLengths [1, 1, 3, 3, 3, 2] = [2, 3, 1] := by decide
+
+/-- on index trajectories (labels `≥ 0`) the kernel with the full window test is the reference rule:
+the sentinel `-1` for "no core" cannot collide with a label -/
+theorem kernel_eq_ref_single_full (τ : Nat) (t : List Int) (hpos : ∀ y ∈ t, 0 ≤ y) :
+    kernelSingle τ false t = coreRef τ t := by
+  cases hc : firstCore τ t with
+  | none => simp [kernelSingle, coreRef, firstCoreSentinel, hc]
+  | some c =>
+    have := hpos c (firstCore_mem τ t c hc)
+    have hne : c ≠ -1 := by omega
+    simp [kernelSingle, coreRef, firstCoreSentinel, hc, hne]
+
+/-- on index trajectories whose runs are all `≥ τ - 1` (what the previous iterative stage guarantees) the kernel
+with the last-frame shortcut is the reference rule -/
+theorem kernel_eq_ref_single_short (τ : Nat) (hτ : 2 ≤ τ) (t : List Int) (hpos : ∀ y ∈ t, 0 ≤ y)
+    (hruns : AllRunsGE (τ - 1) t) : kernelSingle τ true t = coreRef τ t := by
+  cases hc : firstCore τ t with
+  | none => simp [kernelSingle, coreRef, firstCoreSentinel, hc]
+  | some c =>
+    have := hpos c (firstCore_mem τ t c hc)
+    have hne : c ≠ -1 := by omega
+    simp [kernelSingle, coreRef, firstCoreSentinel, hc, hne, shortcut_sound τ hτ t c hruns]
+
+/-- both modes at once: the single-trajectory kernel equals the reference rule on index trajectories; the
+iterative mode (shortcut test) additionally needs `2 ≤ τ` and all runs of the input `≥ τ - 1` -/
+theorem kernel_eq_ref_single (τ : Nat) (iter : Bool) (t : List Int) (hpos : ∀ y ∈ t, 0 ≤ y)
+    (hiter : iter = true → 2 ≤ τ ∧ AllRunsGE (τ - 1) t) : kernelSingle τ iter t = coreRef τ t := by
+  cases iter with
+  | false => exact kernel_eq_ref_single_full τ t hpos
+  | true => exact kernel_eq_ref_single_short τ (hiter rfl).1 t hpos (hiter rfl).2
+
+example : (∀ y ∈ [0, 0, 1, 0, 2, 2, 2], (0 : Int) ≤ y) ∧ AllRunsGE (2 - 1) [0, 0, 1, 0, 2, 2, 2] :=
+  ⟨by decide, allRuns_one _⟩
+example : kernelSingle 2 true [0, 0, 1, 0, 2, 2, 2] = some [0, 0, 0, 0, 2, 2, 2] := by decide
+
+/-- the hypothesis `0 ≤ y` is necessary: a first core labelled `-1` makes the kernel report "no core"
+(`LagtimeError`) although the reference rule succeeds.  This is the sentinel defect of the raw kernel; the
+public function avoids it by coring index trajectories. -/
+example : kernelSingle 2 false [-1, -1, 0] = none ∧ coreRef 2 [-1, -1, 0] = some [-1, -1, -1] := by decide
+
+/-- the hypothesis on the runs is necessary for the shortcut: with a run of length 1 inside the window the
+last-frame test accepts a window the full test rejects -/
+example : kernelSingle 3 true [0, 0, 0, 1, 0, 1, 1] = some [0, 0, 0, 1, 1, 1, 1] ∧
+    coreRef 3 [0, 0, 0, 1, 0, 1, 1] = some [0, 0, 0, 0, 0, 0, 0] := by decide
+
+/-- one trajectory with labels `≥ 0` pushed through the kernel's stages (`2..τ` with the shortcut test when
+iterative, `τ` alone otherwise) gives exactly the successive application of the reference rule, errors included -/
+theorem iter_eq_successive (τ : Nat) (iter : Bool) (t : List Int) (hpos : ∀ y ∈ t, 0 ≤ y) :
+    (schedule τ iter).foldlM (fun acc s => kernelSingle s iter acc) t = refOne τ iter t := by
+  cases iter with
+  | false =>
+    simp only [refOne, schedule_false, List.foldlM_cons, List.foldlM_nil]
+    rw [kernel_eq_ref_single_full τ t hpos]
+  | true =>
+    simp only [refOne, schedule, if_true]
+    exact foldlM_range_congr (fun s a => kernelSingle s true a) (fun s a => coreRef s a)
+      (fun s a => 2 ≤ s ∧ AllRunsGE (s - 1) a ∧ ∀ y ∈ a, 0 ≤ y)
+      (fun s a h => kernel_eq_ref_single_short s h.1 a h.2.2 h.2.1)
+      (fun s a b h hb => ⟨by omega, by simpa using runs_ge s (by omega) a b hb,
+        fun y hy => h.2.2 y (labels_subset s a b hb y hy)⟩)
+      (τ - 1) 2 t ⟨Nat.le_refl _, allRuns_one t, hpos⟩
+
+example : refOne 3 true [0, 1, 1, 0, 0, 0, 2, 1, 1, 1] = some [1, 1, 1, 0, 0, 0, 0, 1, 1, 1] := by decide
+
+/-- the stage-wise processing of a whole set (every stage maps over all trajectories, any failure fails the
+stage) equals processing each trajectory alone through all stages with the reference rule -/
+theorem per_traj (τ : Nat) (iter : Bool) (ts : Trajs) (hpos : ∀ t ∈ ts, ∀ y ∈ t, 0 ≤ y) :
+    kernelAll τ iter ts = ts.mapM (refOne τ iter) := by
+  simp only [kernelAll, kernelStage]
+  rw [foldlM_mapM_comm (fun s a => kernelSingle s iter a)]
+  exact mapM_congr_opt _ _ ts (fun t ht => iter_eq_successive τ iter t (hpos t ht))
+
+/-- on success the result has as many trajectories as the input and trajectory `i` of the result is the
+reference applied to trajectory `i` of the input alone (same order, no mixing) -/
+theorem per_traj_ok (τ : Nat) (iter : Bool) (ts r : Trajs) (hpos : ∀ t ∈ ts, ∀ y ∈ t, 0 ≤ y) :
+    kernelAll τ iter ts = some r ↔
+      r.length = ts.length ∧ ∀ i (h : i < ts.length), refOne τ iter ts[i] = r[i]? := by
+  rw [per_traj τ iter ts hpos]
+  exact mapM_eq_some_opt _ ts r
+
+/-- the set fails exactly when some trajectory on its own has no core at some stage -/
+theorem per_traj_error (τ : Nat) (iter : Bool) (ts : Trajs) (hpos : ∀ t ∈ ts, ∀ y ∈ t, 0 ≤ y) :
+    kernelAll τ iter ts = none ↔ ∃ t ∈ ts, refOne τ iter t = none := by
+  rw [per_traj τ iter ts hpos]
+  exact mapM_eq_none_opt _ ts
+
+example : kernelAll 3 true [[0, 0, 0, 1], [1, 1, 1, 0, 0]] = some [[0, 0, 0, 0], [1, 1, 1, 1, 1]] := by decide
+example : kernelAll 3 true [[0, 0, 0, 1], [1, 1, 0, 0]] = none := by decide
+
+/-- relabelling with a map that is injective on the labels present commutes with the reference rule -/
+theorem equivariant (f : Int → Int) (τ : Nat) (t : List Int)
+    (hinj : ∀ a ∈ t, ∀ b ∈ t, f a = f b → a = b) :
+    coreRef τ (t.map f) = (coreRef τ t).map (·.map f) := coreRef_map f τ t hinj
+
+/-- … and with the whole pipeline of successive windows -/
+theorem equivariant_refOne (f : Int → Int) (τ : Nat) (iter : Bool) (t : List Int)
+    (hinj : ∀ a ∈ t, ∀ b ∈ t, f a = f b → a = b) :
+    refOne τ iter (t.map f) = (refOne τ iter t).map (·.map f) := by
+  simp only [refOne]
+  generalize schedule τ iter = ss
+  induction ss generalizing t with
+  | nil => simp
+  | cons s ss ih =>
+    simp only [List.foldlM_cons, equivariant f s t hinj]
+    cases hc : coreRef s t with
+    | none => simp
+    | some r =>
+      simp only [Option.map_some, Option.bind_eq_bind, Option.bind_some]
+      exact ih r (fun a ha b hb => hinj a (labels_subset s t r hc a ha) b (labels_subset s t r hc b hb))
+
+example : ∀ a ∈ [5, 5, 7, 5, 5], ∀ b ∈ [5, 5, 7, 5, 5], (fun x : Int => 3 - x) a = (fun x : Int => 3 - x) b → a = b := by
+  decide
+
+/-- properties of the whole pipeline (`refOne`, windows `2..τ` or `τ`): same length, only labels of the input,
+all runs of the result `≥ τ`, and the pipeline applied to its own result changes nothing -/
+theorem refOne_props (τ : Nat) (hτ : 1 ≤ τ) (iter : Bool) (t r : List Int) (h : refOne τ iter t = some r) :
+    r.length = t.length ∧ (∀ y ∈ r, y ∈ t) ∧ AllRunsGE τ r ∧ refOne τ iter r = some r := by
+  have hrel : r.length = t.length ∧ ∀ y ∈ r, y ∈ t :=
+    foldlM_rel (fun s a => coreRef s a) (fun a b => b.length = a.length ∧ ∀ y ∈ b, y ∈ a)
+      (fun a => ⟨rfl, fun _ h => h⟩)
+      (fun a b c hab hbc => ⟨hbc.1.trans hab.1, fun y hy => hab.2 y (hbc.2 y hy)⟩)
+      (fun s a b hb => ⟨length s a b hb, labels_subset s a b hb⟩)
+      (schedule τ iter) t r h
+  refine ⟨hrel.1, hrel.2, ?_⟩
+  rcases refOne_last τ iter t r h with ⟨hi, hle, _⟩ | ⟨r', hr'⟩
+  · have h1 : τ = 1 := by omega
+    subst h1 hi
+    exact ⟨allRuns_one r, by simp [refOne, schedule_true_le_one]⟩
+  · have hruns : AllRunsGE τ r := runs_ge τ hτ r' r hr'
+    refine ⟨hruns, ?_⟩
+    apply foldlM_fixed (fun s a => coreRef s a) r (schedule τ iter)
+    intro s hs
+    have hs' := mem_schedule τ iter hτ s hs
+    exact fixed_of_runs s hs'.1 r (coreRef_ne_nil τ r' r hr') (allRuns_mono hs'.2 r hruns)
+
+example : refOne 3 true [0, 1, 1, 0, 0, 0, 2, 1, 1, 1] = some [1, 1, 1, 0, 0, 0, 0, 1, 1, 1] ∧
+    refOne 3 false [0, 1, 1, 0, 0, 0, 2, 1, 1, 1] = some [0, 0, 0, 0, 0, 0, 0, 1, 1, 1] := by decide
+
+/-- the public API model equals the reference for ANY encoding `f` of labels into indices that `StateTraj.mk'`
+produces, as long as indices are `≥ 0` and `labelOf ss` decodes them (`labelOf ss (f x) = x` on the labels present);
+all branches agree, errors included (`ValueError` for `τ ≤ 0`, identity for `τ = 1`, `LagtimeError` iff some
+trajectory alone has no core at some stage) -/
+theorem model_meets_spec_of_encoding (ts : Trajs) (τ : Int) (iter : Bool) (f : Int → Int) (ss : List Int)
+    (h_mk : StateTraj.mk' ts = .ok ⟨ts.map (·.map f), ss⟩)
+    (h_nonneg : ∀ t ∈ ts, ∀ x ∈ t, 0 ≤ f x)
+    (h_label : ∀ t ∈ ts, ∀ x ∈ t, labelOf ss (f x) = x) :
+    dynamicalCoring ts τ iter = refSet ts τ iter := by
+  simp only [dynamicalCoring, refSet, h_mk]
+  by_cases h0 : τ ≤ 0
+  · simp [h0]
+  simp only [if_neg h0]
+  by_cases h1 : τ = 1
+  · simp [h1]
+  simp only [if_neg h1]
+  have hτ : 1 ≤ τ.toNat := by omega
+  have hinj : ∀ t ∈ ts, ∀ a ∈ t, ∀ b ∈ t, f a = f b → a = b := by
+    intro t ht a ha b hb e
+    rw [← h_label t ht a ha, ← h_label t ht b hb, e]
+  have hk : kernelAll τ.toNat iter (ts.map (·.map f)) =
+      (ts.mapM (refOne τ.toNat iter)).map (·.map (·.map f)) := by
+    rw [per_traj]
+    · rw [List.mapM_map, ← mapM_map_opt]
+      exact mapM_congr_opt _ _ ts (fun t ht => equivariant_refOne f τ.toNat iter t (hinj t ht))
+    · intro t' ht' y hy
+      obtain ⟨t, ht, rfl⟩ := List.mem_map.mp ht'
+      obtain ⟨x, hx, rfl⟩ := List.mem_map.mp hy
+      exact h_nonneg t ht x hx
+  rw [hk]
+  cases hr : ts.mapM (refOne τ.toNat iter) with
+  | none => simp
+  | some r =>
+    simp only [Option.map_some, List.map_map]
+    congr 1
+    conv => rhs; rw [← List.map_id r]
+    apply List.map_congr_left
+    intro q hq
+    obtain ⟨t, ht, hq'⟩ := mapM_some_mem_opt _ ts r hr q hq
+    have hsub := (refOne_props τ.toNat hτ iter t q hq').2.1
+    simp only [Function.comp, List.map_map, id]
+    conv => rhs; rw [← List.map_id q]
+    apply List.map_congr_left
+    intro y hy
+    exact h_label t ht y (hsub y hy)
+
+/-- **model meets spec**: for every trajectory set whose labels pass the 32-bit guard of the `StateTraj`
+lookup table (`LabelGuard`: all labels in `[-2^29, 2^29]`), every `lagtime` (any integer) and both modes, the model
+of the public `dynamical_coring` (StateTraj encoding, sentinel `-1`, last-frame shortcut, stage-wise schedule over the
+whole set, decoding through `states[·]`) returns exactly what the reference rule applied to each trajectory alone
+returns — values and errors alike -/
+theorem model_meets_spec (ts : Trajs) (τ : Int) (iter : Bool) (hg : LabelGuard ts) :
+    dynamicalCoring ts τ iter = refSet ts τ iter :=
+  model_meets_spec_of_encoding ts τ iter (fun x => (rank (states ts) x : Int)) (states ts)
+    (mk'_eq_rank hg) (fun _ _ _ _ => Int.natCast_nonneg _)
+    (fun t ht _ hx => labelOf_rank (mem_states.mpr (List.mem_flatten.mpr ⟨t, ht, hx⟩)))
+
+/-- the same under the general window guard of `Lemmas/StateTraj.lean` (labels in `[lo, hi]`, `lo ≤ 0`,
+`hi - 2*lo < 2^31`), e.g. all non-negative labels below `2^31` -/
+theorem model_meets_spec_of_window (ts : Trajs) (τ : Int) (iter : Bool) {lo hi : Int}
+    (hw : LabelWindow ts lo hi) : dynamicalCoring ts τ iter = refSet ts τ iter :=
+  model_meets_spec_of_encoding ts τ iter (fun x => (rank (states ts) x : Int)) (states ts)
+    (mk'_eq_rank_of_window hw) (fun _ _ _ _ => Int.natCast_nonneg _)
+    (fun t ht _ hx => labelOf_rank (mem_states.mpr (List.mem_flatten.mpr ⟨t, ht, hx⟩)))
+
+example : LabelGuard [[-1, -1, 7, -1, -1, -1], [7, 7, 7, -1]] := by decide
+/-- a first core labelled `-1` is handled correctly by the public function (contrast with the raw kernel above) -/
+example : dynamicalCoring [[-1, -1, 7, -1, -1, -1], [7, 7, 7, -1]] 3 true
+    = .ok [[-1, -1, -1, -1, -1, -1], [7, 7, 7, 7]] := by
+  rw [model_meets_spec _ _ _ (by decide)]; rfl
+example : dynamicalCoring [[-1, -1, 7, -1, -1, -1], [7, -1, 7]] 3 true = .error .lagtime := by
+  rw [model_meets_spec _ _ _ (by decide)]; rfl
+/-- … and directly on the model, without the theorem (oracle `holds` compares with the reference) -/
+example : holds [[-1, -1, 7, -1, -1, -1], [7, 7, 7, -1]] 3 true
+    (dynamicalCoring [[-1, -1, 7, -1, -1, -1], [7, 7, 7, -1]] 3 true) = true := by decide
 
 end MsmVerif.C05
